@@ -8,11 +8,12 @@ import (
 
 // Knobs bias the scenario generator.
 type Knobs struct {
-	MaxReqs    int  // number of requests 1..MaxReqs
-	Interleave bool // interleave invoke/finish of different requests
-	FinishPct  int  // per-attempt chance (percent) of a forward Finish verdict
-	ErrPct     int  // per-attempt chance (percent) of a transport error
-	ReplacePct int  // per-attempt chance (percent) that the forward callback replaces the backend
+	MaxReqs       int  // number of requests 1..MaxReqs
+	Interleave    bool // interleave invoke/finish of different requests
+	FinishPct     int  // per-attempt chance (percent) of a forward Finish verdict
+	ErrPct        int  // per-attempt chance (percent) of a transport error
+	ReplacePct    int  // per-attempt chance (percent) that the forward callback replaces the backend
+	PanicPermille int  // per-attempt chance (per mille) of a panicking forward filter / RoundTrip
 }
 
 var subNames = []string{"a", "b", "c", "d"}
@@ -115,6 +116,13 @@ func Gen(r *vh.Rand, k Knobs) *Scenario {
 			} else if r.Chance(1, 6) {
 				a.Rt = '5'
 			}
+			if r.Intn(1000) < k.PanicPermille {
+				if r.Bool() {
+					a.Fwd = '!'
+				} else {
+					a.Rt = '!'
+				}
+			}
 			q.Script = append(q.Script, a)
 		}
 		// HandleRequestFinish filters (verdicts of up to 4 chained modules) and, rarely, a HandleBeforeLocation
@@ -166,7 +174,7 @@ func Gen(r *vh.Rand, k Knobs) *Scenario {
 			nb += len(sc.Backs)
 		}
 		for n := r.Range(1, 3); n > 0 && nb > 0 && len(s.Sched) < 36; n-- {
-			st := Step{K: r.Intn(nb), Flip: "uuud"[r.Intn(4)]}
+			st := Step{K: r.Intn(nb), Flip: "uuuddx"[r.Intn(6)]}
 			at := r.Intn(len(s.Sched) + 1)
 			s.Sched = append(s.Sched[:at], append([]Step{st}, s.Sched[at:]...)...)
 		}
